@@ -124,10 +124,10 @@ def file_text(kind: str, rnd: random.Random) -> str:
 
 
 def write_tree(root: str, files: Dict[str, str], skip_fail: bool, templater: str = "jinja",
-               nested: Optional[Dict[str, str]] = None) -> None:
+               nested: Optional[Dict[str, str]] = None, warnings: str = "") -> None:
     os.makedirs(root, exist_ok=True)
     with open(os.path.join(root, ".sqlfluff"), "w") as fh:
-        fh.write("[sqlfluff]\nrules = LT01,CP01,AM04\n"
+        fh.write("[sqlfluff]\nrules = LT01,CP01,AM04\n" + (f"warnings = {warnings}\n" if warnings else "") +
                  f"templater = {templater}\nlarge_file_skip_byte_limit = {LIMIT}\n"
                  f"large_file_skip_fail = {skip_fail}\n"
                  "[sqlfluff:rules:capitalisation.keywords]\ncapitalisation_policy = upper\n")
@@ -192,7 +192,9 @@ def context_directory(root: str, rnd: random.Random) -> Dict[str, str]:
         "a": f"[sqlfluff:templater:jinja:context]\ntbl = {t}\ncol = amount\n",
         "m": "[sqlfluff:templater:jinja:macros]\nkeyed = {% macro keyed(c) %}{{ c }}_key{% endmacro %}\n",
     }
-    write_tree(root, files, skip_fail=False, nested=nested)
+    # CP01 is configured as a warning here: a violation's warning flag is part of its record and decides the exit
+    # status, and in a pool it has to survive the trip from the worker to the parent.
+    write_tree(root, files, skip_fail=False, nested=nested, warnings="CP01")
     return {f: ("oversize" if f == "big.sql" else "templ") for f in files}
 
 
